@@ -100,10 +100,27 @@ impl Read for FaultR<'_> {
             self.tripped = true;
             return Err(std::io::Error::other("injected read failure"));
         }
-        let n = b.len().min(self.at - self.pos).min(self.data.len() - self.pos);
+        let n = b.len().min(self.at - self.pos).min(self.data.len().saturating_sub(self.pos));
         b[..n].copy_from_slice(&self.data[self.pos..self.pos + n]);
         self.pos += n;
         Ok(n)
+    }
+}
+
+/// seeking always succeeds (the lazy reader and the collector skip values that way); the fault is a source whose bytes
+/// from offset `at` on cannot be read
+impl std::io::Seek for FaultR<'_> {
+    fn seek(&mut self, to: std::io::SeekFrom) -> std::io::Result<u64> {
+        let p = match to {
+            std::io::SeekFrom::Start(n) => n as i128,
+            std::io::SeekFrom::Current(d) => self.pos as i128 + d as i128,
+            std::io::SeekFrom::End(d) => self.data.len() as i128 + d as i128,
+        };
+        if p < 0 {
+            return Err(std::io::Error::new(std::io::ErrorKind::InvalidInput, "seek before start"));
+        }
+        self.pos = p as usize;
+        Ok(p as u64)
     }
 }
 
@@ -263,6 +280,17 @@ fn check_write(c: &Case, obs: &mut Obs) {
     obs.extra_evals = n.saturating_sub(1);
 }
 
+/// which read operation a case exercises: 0 read_dataset_with_ts, 1 from_reader, 2 FileMetaTable::from_reader,
+/// 3 DataSetReader tokens, 4 LazyDataSetReader tokens (both read the raw stream: not for the deflated syntax), 5 DicomCollector
+fn read_kind(op: u8, ts: u8) -> u8 {
+    let k = op % 6;
+    if (k == 3 || k == 4) && ts >= 3 {
+        0
+    } else {
+        k
+    }
+}
+
 /// the read operations; returns Err(text) when the operation reports failure
 fn read_op(name: &mut String, c: &Case, bytes: &[u8], r: &mut FaultR) -> Result<(), String> {
     let e2s = |e: &dyn std::error::Error| crate::img::errs(e);
@@ -270,7 +298,7 @@ fn read_op(name: &mut String, c: &Case, bytes: &[u8], r: &mut FaultR) -> Result<
     match &c.subject {
         Subject::DataSet { ts, .. } => {
             let (t, _, tname) = ts_of(*ts);
-            match c.op % 3 {
+            match read_kind(c.op, *ts) {
                 0 => {
                     *name = format!("read_dataset_with_ts:{tname}");
                     InMemDicomObject::read_dataset_with_ts(&mut *r, &t).map(|_| ()).map_err(|e| e2s(&e))
@@ -279,9 +307,36 @@ fn read_op(name: &mut String, c: &Case, bytes: &[u8], r: &mut FaultR) -> Result<
                     *name = format!("from_reader:{tname}");
                     dicom_object::from_reader(&mut *r).map(|_| ()).map_err(|e| e2s(&e))
                 }
-                _ => {
+                2 => {
                     *name = "FileMetaTable::from_reader".into();
                     FileMetaTable::from_reader(&mut *r).map(|_| ()).map_err(|e| e2s(&e))
+                }
+                3 => {
+                    // the eager token reader: the operation is "iterate to the end"; it reports failure through an Err token
+                    *name = format!("DataSetReader:{tname}");
+                    let rd = dicom_parser::dataset::read::DataSetReader::new_with_ts(&mut *r, &t).map_err(|e| e2s(&e))?;
+                    for tok in rd {
+                        tok.map_err(|e| e2s(&e))?;
+                    }
+                    Ok(())
+                }
+                4 => {
+                    // the lazy token reader, every value materialised
+                    *name = format!("LazyDataSetReader:{tname}");
+                    let mut rd = dicom_parser::dataset::lazy_read::LazyDataSetReader::new_with_ts(&mut *r, &t).map_err(|e| e2s(&e))?;
+                    while let Some(tok) = rd.advance() {
+                        tok.map_err(|e| e2s(&e))?.into_owned().map_err(|e| e2s(&e))?;
+                    }
+                    Ok(())
+                }
+                _ => {
+                    // the collector on a complete file: meta group, then the data set in two portions
+                    *name = format!("DicomCollector:{tname}");
+                    let mut col = dicom_object::collector::DicomCollector::new(std::io::BufReader::with_capacity(1 + (c.op as usize / 8) * 7, &mut *r));
+                    col.read_file_meta().map(|_| ()).map_err(|e| e2s(&e))?;
+                    let mut acc = InMemDicomObject::new_empty();
+                    col.read_dataset_up_to(dicom_core::Tag(0x0010, 0x0010), &mut acc).map_err(|e| e2s(&e))?;
+                    col.read_dataset_to_end(&mut acc).map_err(|e| e2s(&e))
                 }
             }
         }
@@ -314,9 +369,9 @@ fn read_input(c: &Case) -> Option<Vec<u8>> {
         Subject::DataSet { elems, ts } => {
             let (t, rts, _) = ts_of(*ts);
             let mut out = vec![];
-            match c.op % 3 {
-                0 => to_obj(elems, Some(rts)).write_dataset_with_ts(&mut out, &t).ok()?,
-                1 => file_obj(elems, *ts).write_all(&mut out).ok()?,
+            match read_kind(c.op, *ts) {
+                0 | 3 | 4 => to_obj(elems, Some(rts)).write_dataset_with_ts(&mut out, &t).ok()?,
+                1 | 5 => file_obj(elems, *ts).write_all(&mut out).ok()?,
                 _ => {
                     // the table reader expects the magic code followed by the group
                     out.extend_from_slice(b"DICM");
@@ -396,7 +451,7 @@ pub fn run(ctx: &Ctx) {
     );
     ctx.run_prop(
         "read_faults",
-        "inputs: valid encodings of the same subjects (data sets in 4 syntaxes, complete files, file meta groups, single PDUs, P-DATA PDU trains); operations: read_dataset_with_ts, from_reader, FileMetaTable::from_reader, read_pdu_from_wire(_async), PDataReader::read_to_end; fault: the reader returns Err(Other) once k bytes were delivered, for EVERY k in 0..len (sampled beyond 4 KiB); oracle: a panic is a violation; whenever the injected error was actually returned to the code, the operation must return Err; evaluations count injections",
+        "inputs: valid encodings of the same subjects (data sets in 4 syntaxes, complete files, file meta groups, single PDUs, P-DATA PDU trains); operations: read_dataset_with_ts, from_reader, FileMetaTable::from_reader, iterating DataSetReader and LazyDataSetReader (values materialised) to the end, DicomCollector (read_file_meta, read_dataset_up_to, read_dataset_to_end through BufReaders of 1-218 bytes capacity), read_pdu_from_wire(_async), PDataReader::read_to_end; fault: the reader returns Err(Other) once k bytes were delivered, for EVERY k in 0..len (sampled beyond 4 KiB); oracle: a panic is a violation; whenever the injected error was actually returned to the code, the operation must return Err; evaluations count injections",
         || (subjects(), any::<u8>()).prop_map(|(subject, op)| Case { subject, op }).boxed(),
         ctx.cases(1_500, 30_000),
         check_read,
